@@ -3,6 +3,7 @@ package sym
 import (
 	"fmt"
 	"go/types"
+	"strings"
 
 	"golang.org/x/tools/go/ssa"
 )
@@ -26,6 +27,7 @@ type goPending struct {
 	fn   Value
 	args []Value
 	id   int
+	mark int // allocation watermark at spawn: objects allocated later are local to whoever allocates them
 }
 
 // goList is the persistent list of pending goroutines (State.aux["go"]).
@@ -48,7 +50,7 @@ func (e *Engine) pendingGo(st *State) []goPending {
 func (e *Engine) spawn(st *State, fn Value, args []Value) {
 	e.goCounter++
 	old := e.pendingGo(st)
-	st.setAux("go", &goList{items: append(old[:len(old):len(old)], goPending{fn: fn, args: args, id: e.goCounter})})
+	st.setAux("go", &goList{items: append(old[:len(old):len(old)], goPending{fn: fn, args: args, id: e.goCounter, mark: e.nextObj})})
 	e.rep.noteStub("goroutines: non-preemptive sequentialisation (switch at completion / blocking operations only)")
 }
 
@@ -112,7 +114,17 @@ func (e *Engine) schedule(st *State, blocked func(*State) bool, what string) []O
 			}
 			s2.setAux("go", &goList{items: rest})
 			e.stats.Goroutines++
-			for _, o := range e.callValue(s2, pend[i].fn, pend[i].args) {
+			prevGo, prevMark, prevRaces := e.curGo, e.curGoMark, e.racesFound
+			e.curGo, e.curGoMark = pend[i].id, pend[i].mark
+			gouts := e.callValue(s2, pend[i].fn, pend[i].args)
+			if e.cfg.Races {
+				e.rep.Obligations++
+				if e.racesFound == prevRaces {
+					e.rep.Discharged++
+				}
+			}
+			e.curGo, e.curGoMark = prevGo, prevMark
+			for _, o := range gouts {
 				if o.panicked {
 					res = append(res, o)
 					continue
@@ -311,4 +323,70 @@ func init() {
 		target := e.lookupMethod(rt.T, m)
 		return e.callFunction(st, target, []Value{rt.V, args[1]}, nil)
 	})
+}
+
+// ---------------------------------------------------------------------------
+// Data-race detection (harness directive races=1)
+//
+// While a goroutine runs, every load and store through a pointer into an object that existed when the goroutine was
+// spawned is logged in the state (goroutine, object, path, read/write). Two accesses of different goroutines to the
+// same location (one path a prefix of the other), at least one of them a write, are a data race in the sense of the
+// Go memory model unless ordered by synchronisation. Synchronisation between sibling goroutines is NOT modelled here
+// (no locksets, no channel edges): the detector is meant for harnesses whose goroutines only call read-only
+// accessors; whatever it reports is confirmed natively under the race detector (go test -race) before it is reported.
+type raceAccess struct {
+	gid   int
+	obj   int
+	path  string
+	write bool
+}
+
+type raceLog struct{ items []raceAccess }
+
+func (e *Engine) raceAccess(st *State, p *PtrV, write bool) {
+	if p.Obj == 0 || p.Obj > e.curGoMark {
+		return
+	}
+	if _, isBase := e.base[p.Obj]; isBase {
+		if _, inHeap := st.heap[p.Obj]; !inHeap && !write {
+			return // reads of never-written package-level data
+		}
+	}
+	key := pathKey(p.Path)
+	var old []raceAccess
+	if v, ok := st.aux["race.log"]; ok {
+		old = v.(*raceLog).items
+	}
+	for _, a := range old {
+		if a.gid == e.curGo || a.obj != p.Obj || !(a.write || write) {
+			continue
+		}
+		if strings.HasPrefix(a.path, key) || strings.HasPrefix(key, a.path) {
+			id := fmt.Sprintf("%d%s", p.Obj, key)
+			if !e.raceSeen[id] {
+				if e.raceSeen == nil {
+					e.raceSeen = map[string]bool{}
+				}
+				e.raceSeen[id] = true
+				e.racesFound++
+				where := ""
+				if n := len(e.stack); n > 0 {
+					where = e.stack[n-1].String()
+				}
+				in, r := e.modelInputs(st, e.tb.True)
+				if r == Sat {
+					e.rep.addViolation(Violation{Kind: "panic", Label: "panic", Message: "DATA RACE: unsynchronised accesses by two goroutines (at least one write) in " + where, Inputs: in})
+				} else {
+					e.rep.addInconclusive("data race in %s: solver unknown", where)
+				}
+			}
+			break
+		}
+	}
+	for _, a := range old {
+		if a.gid == e.curGo && a.obj == p.Obj && a.path == key && (a.write || !write) {
+			return // already logged
+		}
+	}
+	st.setAux("race.log", &raceLog{items: append(old[:len(old):len(old)], raceAccess{e.curGo, p.Obj, key, write})})
 }
